@@ -133,8 +133,14 @@ class Lattice:
         self.live_version = 0
 
     def mutate_weights(self, rng):
-        c = int(rng.integers(0, 30))
-        self.w_live[:, c:c + 6] = 0.0 if rng.random() < 0.6 else 1.0
+        if rng.random() < 0.4:           # a whole ring (some radii lose every valid pixel) …
+            yy, xx = np.mgrid[:31, :41]
+            a = float(rng.uniform(2, 12))
+            rr = np.hypot(yy - 15, xx - 20)
+            self.w_live[(rr > a) & (rr < a + 4)] = 0.0 if rng.random() < 0.6 else 1.0
+        else:                            # … or a vertical stripe
+            c = int(rng.integers(0, 30))
+            self.w_live[:, c:c + 6] = 0.0 if rng.random() < 0.6 else 1.0
         self.live_version += 1
         self.force_repeat = True                 # the next rbasex call repeats the previous one with the edited array
 
@@ -312,6 +318,8 @@ def oracle_param_pairs(ck, tier, deep):
     w1 = rng.random((31, 41)) + 0.1
     w2 = w1.copy()
     w2[:, :9] = 0
+    yy, xx = np.mgrid[:31, :41]
+    w3 = w1 * ~((np.hypot(yy - 15, xx - 20) > 3.5) & (np.hypot(yy - 15, xx - 20) < 8.5))      # whole rings without valid pixels
     scratch = os.environ.get("VERIF_SCRATCH")
 
     def dasch(A, d, method="three_point", n=17, dr=1.0):
@@ -329,7 +337,7 @@ def oracle_param_pairs(ck, tier, deep):
                                                   proj_angles=list(angles), radial_step=step, clip=clip)[0]
 
     def rbasex(A, d, image=0, oo=(2, False), direction="inverse", reg=None, out="same", origin="center", rmax="MIN", weights=None):
-        wt = {None: None, "w1": w1, "w2": w2}[weights]
+        wt = {None: None, "w1": w1, "w2": w2, "w3": w3}[weights]
         if image == 1 and wt is not None:
             wt = np.ones(im2.shape)
         r = A.rbasex.rbasex_transform([im, im2][image], origin=origin, rmax=rmax, order=oo[0], odd=oo[1], weights=wt,
@@ -347,7 +355,7 @@ def oracle_param_pairs(ck, tier, deep):
         "abel.rbasex": (rbasex, dict(image=[0, 1], oo=[(2, False), (0, False), (4, False), (1, True), (2, True)],
                                      direction=["inverse", "forward"], reg=[None, ("L2", 3.0), ("diff", 1.0), "pos"],
                                      out=["same", "full", "fold", "unfold", "full-unique"], origin=["center", (12, 20), "cc"],
-                                     rmax=["MIN", 10, 12], weights=[None, "w1", "w2"])),
+                                     rmax=["MIN", 10, 12], weights=[None, "w1", "w2", "w3"])),
     }
     ref = {}
     for modname, (fn, params) in spec.items():
